@@ -19,6 +19,8 @@ type Sandbox struct {
 	rendered                            map[string]string
 	traceOff                            int64
 	ExtraEnv                            []string
+	// NoReap: do not kill what is left of the process group when grog exits (the interrupt check looks for survivors)
+	NoReap bool
 }
 
 func NewSandbox(base, bin string) (*Sandbox, error) {
@@ -131,6 +133,7 @@ type Result struct {
 	Wall     time.Duration
 	TimedOut bool
 	Order    []string // S/E events in order: "S label" / "E label"
+	Pgid     int
 }
 
 func (s *Sandbox) env() []string {
@@ -179,8 +182,11 @@ func (s *Sandbox) GrogWith(sub string, cap time.Duration, during func(cmd *exec.
 			res.Exit = -1
 		}
 	}
-	// make sure nothing of the process group survives the invocation
-	_ = syscall.Kill(-cmd.Process.Pid, syscall.SIGKILL)
+	res.Pgid = cmd.Process.Pid
+	if !s.NoReap {
+		// make sure nothing of the process group survives the invocation
+		_ = syscall.Kill(-cmd.Process.Pid, syscall.SIGKILL)
+	}
 	s.readTrace(&res)
 	return res
 }
